@@ -177,6 +177,7 @@ def discipline(N: int, k: int, s0: int, s1: int, s2: int, fk: int, fkind: int) -
                 su.api.close_response(r)
             su.api.close(su.pool)
         d = su.pool._discipline
+        P.reached()
         sig = f"discipline:{ct}"
         if d.mutations:
             P.cover("pool-mutated")
